@@ -199,6 +199,13 @@ def typed_keys(s, rng, kt, count, odd=True):
             k = s.key(ln)
             if k:
                 out[-(j + 1)] = k
+        if count >= 10:
+            fam8 = bytes(rng.getrandbits(8) | 1 for _ in range(8))
+            extra = [fam8 + b"1", fam8 + b"2", fam8 + b"\x00", bytes([7]), bytes([7, 0, 0])]
+            for j, raw in enumerate(extra):
+                k = s.key(raw=raw)
+                if k:
+                    out[-(3 + j)] = k
     return out
 
 
@@ -337,11 +344,7 @@ def gen_mix(seed, idbase=0, nops=220, name="mix"):
         else:
             keys = [k for k in [s.key(ln) for ln in (0, 10, 10, 11, 11, 18, 19, 12, 26, 1, 4, 30, 100, 1000)] if k]
             for b in spec[8:14]:
-                if kt == "string":
-                    try:
-                        b.decode("utf-8")
-                    except UnicodeDecodeError:
-                        continue
+                # (string maps too: a DbString key given as bytes need not be valid UTF-8 and is stored as it is)
                 k = s.key(raw=b)
                 if k:
                     keys.append(k)
@@ -1030,6 +1033,40 @@ def gen_sync_scale(seed, idbase=0, segs=(1024, 512, 2048, 1000), kt="u64", name=
     return s
 
 
+def gen_longchain(seed, idbase=0, nkeys=4500, name="longchain"):
+    """C06 at scale: ONE bucket chain of thousands of entries; every key is put again with a value of the same size
+    (in place), then half of them are deleted and put again: len and the file ends must not move"""
+    rng = random.Random(seed)
+    s = Script(idbase, design=False, name=name)
+    keys = []
+    while len(keys) < nkeys:
+        k = s.key(rng.choice([9, 10, 12]))
+        if k:
+            keys.append(k)
+    v1, v2 = s.newval(5), s.newval(6)
+    s.op("open_db", db=0, dir="d")
+    s.op("map", h=1, db=0, name="m", kt="bytes", params={"buckets": ["BucketsSize", 1]})
+    for k in keys:
+        s.op("put", h=1, k=k, v=v1)
+    s.op("len", h=1)
+    for k in keys[::3]:
+        s.op("put", h=1, k=k, v=v2)
+    s.op("len", h=1)
+    for k in keys[:6] + keys[-6:] + rng.sample(keys, 20):
+        s.op("get", h=1, k=k)
+    for k in keys[1::50]:
+        s.op("del", h=1, k=k)
+    for k in keys[1::50]:
+        s.op("put", h=1, k=k, v=v1)
+    s.op("len", h=1)
+    s.op("stats", h=1, only="kfree")
+    s.op("stats", h=1, only="vfree")
+    s.op("stats", h=1, only="klen")
+    s.op("new_process")
+    s.op("decode", dir="d", name="m", native=True)
+    return s
+
+
 def gen_fault(seed, idbase=0, shape="val", threshold=0, syncop="flush", name="fault", second=None, retry=False):
     """C16: the OS refuses writes beyond `threshold` bytes (RLIMIT_FSIZE) during one flush/sync; full
     buffering, so only the flush writes.  Then: reads, lift, flush again, snapshot."""
@@ -1532,6 +1569,12 @@ def gen_twice(seed, idbase=0, nops=150, nb=("BucketsSize", 32), kt="bytes", bufs
                 s.op("bulk_del", h=1, ks=k)
             else:
                 s.op(o, h=1, ks=k, vs=v)
+            if rep == "B" and rng.random() < 0.04:
+                # replica B closes everything and opens the map again (in-process or in a new process)
+                s.op(rng.choice(["drop_all", "new_process"]))
+                s.op("open_db", db=0, dir=d)
+                s.op("map", h=1, db=0, name="m", kt=kt, params=rng.choice([params, None]) or params)
+                s.op("len", h=1)
             if rep == "B" and rng.random() < 0.5:
                 r = rng.random()
                 if r < 0.3:
@@ -1681,7 +1724,12 @@ def gen_bulk(seed, idbase=0, nops=200, kt="bytes", nb=("BucketsSize", 16), name=
     s.op("open_db", db=0, dir="d")
     s.op("map", h=1, db=0, name="m", kt=kt, params={"buckets": list(nb)})
     s.op("clone_h", h=2, **{"from": 1})
-    typed = kt in ("u64", "i64", "vu64")
+    typed = True          # string / bytes maps are addressed by integers as well (8 big-endian bytes)
+    if kt in ("string", "bytes"):
+        for x in (1, 127, 128, 255, 1000, (1 << 32) + 5, (1 << 63) + 1):
+            k = s.key(u64=x, enc="be")
+            if k:
+                keys.append(k)
     _op = s.op
 
     def bop(opname, **kw):
